@@ -297,6 +297,19 @@ def run(ctx, prop="C17"):
 
     # ---- R4 per-call tables are fresh at every entry point -------------------------------------
     ctx.rule(f"{P}.R4", "per-call name tables and name sets are fresh objects at every entry point (never module-level, never a default)", floor=6)
+
+    def fresh_table(e, mod, depth):
+        """an expression that builds a new, empty name table every time it is evaluated"""
+        if norm(e) in ("{}", "dict()"):
+            return True
+        if isinstance(e, ast.Dict) and all(k is not None and isinstance(k, ast.Constant) for k in e.keys):
+            return all(norm(v) in ("{}", "dict()") for v in e.values)
+        if isinstance(e, ast.Call) and isinstance(e.func, ast.Name) and not e.args and not e.keywords and depth > 0:
+            g = p.resolve_func(mod, e.func)
+            if g is not None and g.cls is None:
+                rets_ = [n for n in walk_local(g.node) if isinstance(n, ast.Return)]
+                return bool(rets_) and all(r.value is not None and fresh_table(r.value, g.mod, depth - 1) for r in rets_)
+        return False
     ps = p.func("_schema_py:_parse_schema")
     for cs in a.cg.callers.get(ps.id, []):
         if cs.caller.id == ps.id or cs.caller.name == "parse_field":
@@ -310,11 +323,19 @@ def run(ctx, prop="C17"):
     for fid in ("_write_py:schemaless_writer", "_validation_py:validate", "_validation_py:validate_many", "utils:generate_many", "utils:anonymize_schema", "_read_py:schemaless_reader", "_write_py:GenericWriter.__init__", "_read_py:file_reader.__init__", "_schema_py:load_schema_ordered"):
         f = p.func(fid)
         tables = [n for n in walk_local(f.node) if isinstance(n, (ast.Assign, ast.AnnAssign)) and "named_schemas" in norm(n.targets[0] if isinstance(n, ast.Assign) else n.target) and n.value is not None]
-        ok = bool(tables) and all(norm(n.value) in ("{}", "_default_named_schemas()", "dict()") for n in tables[:1])
+        ok = bool(tables) and all(fresh_table(n.value, f.mod, 1) for n in tables[:1])
         ctx.check(f"{P}.R4", f"{f.qualname}: name table created fresh per call", ok, f.where(tables[0]) if tables else f.where(), f"{f.qualname}: {[norm(n) for n in tables][:2]}", "a name table shared across calls leaks definitions between schemas that reuse the same type names")
-    dn = p.func("_read_py:_default_named_schemas")
-    rets = [n for n in walk_local(dn.node) if isinstance(n, ast.Return)]
-    ctx.check(f"{P}.R4", "_default_named_schemas returns a fresh dict of fresh dicts", len(rets) == 1 and norm(rets[0].value) == "{'writer': {}, 'reader': {}}", dn.where(), f"_default_named_schemas: {[norm(r.value) for r in rets]}", "reader name tables must be fresh per reader")
+    dn = p.maybe_func("_read_py:_default_named_schemas")
+    if dn is not None:
+        rets = [n for n in walk_local(dn.node) if isinstance(n, ast.Return)]
+        ctx.check(f"{P}.R4", "_default_named_schemas returns a fresh dict of fresh dicts", len(rets) == 1 and norm(rets[0].value) == "{'writer': {}, 'reader': {}}", dn.where(), f"_default_named_schemas: {[norm(r.value) for r in rets]}", "reader name tables must be fresh per reader")
+    else:
+        # folded into its callers: the two reader entry points build the pair of tables themselves
+        for fid in ("_read_py:schemaless_reader", "_read_py:file_reader.__init__"):
+            f = p.func(fid)
+            tables = [n for n in walk_local(f.node) if isinstance(n, (ast.Assign, ast.AnnAssign)) and "named_schemas" in norm(n.targets[0] if isinstance(n, ast.Assign) else n.target) and n.value is not None]
+            ok = bool(tables) and norm(tables[0].value) in ("{'writer': {}, 'reader': {}}", "{'reader': {}, 'writer': {}}")
+            ctx.check(f"{P}.R4", f"{f.qualname}: the reader's name tables are a fresh dict of fresh dicts", ok, f.where(tables[0]) if tables else f.where(), f"{f.qualname}: {[norm(n) for n in tables][:2]}", "reader name tables must be fresh per reader")
 
     # ---- R5 no hidden state --------------------------------------------------------------------
     ctx.rule(f"{P}.R5", "no mutable class-level attribute is mutated, no caching decorator, no global/nonlocal, no function-attribute store, no module-level cache written from functions", floor=3)
@@ -355,6 +376,8 @@ def run(ctx, prop="C17"):
         roots = ev["roots"]
         api = [o for o in roots if role_of(o) is not None and role_of(o)[0] in ("SCHEMA", "DATA")]
         ctx.check(f"{P}.R6", f"_inject_schema: {ev['how']} on `{ev['target']}` never reaches a caller's object", not api, inj.where(ev["node"]), f"_inject_schema: {norm(ev['node'])[:80]}", f"the in-place edit can reach {api[:2]}")
+    if P == "C17":
+        ctx.borrow("C18", {"C18.R4": "C17.R7"}, "a changed interpreter- or process-wide setting is state kept across calls: the next operation, of any caller, runs under it")
 
 
 def a_is_global(f, name, eff):
